@@ -65,6 +65,7 @@ type eObs struct {
 	Hang    bool                   `json:"hang"`
 	Held    bool                   `json:"held"`           // the held rule did reach its gate
 	During  int                    `json:"during"`         // events recorded while the rule was held
+	Late    int                    `json:"late"`           // events recorded AFTER the call had returned
 	Compile string                 `json:"compile,omitempty"`
 }
 
@@ -145,6 +146,10 @@ func eRuleText(r eRule) string {
 		sb.WriteString("  return !5\n")
 	case "loop": // unbounded for loop: cut off after maxExecuteNum iterations
 		sb.WriteString("  for i = 0; true; i += 1 {\n  }\n")
+	case "brk": // a break that is in no loop (grammatically legal): the rule fails, it has NOT returned
+		sb.WriteString("  if 1 == 1 {\n    break\n  }\n")
+	case "cont": // a continue that is in no loop
+		sb.WriteString("  continue\n")
 	}
 	sb.WriteString("end\n")
 	return sb.String()
@@ -350,6 +355,21 @@ func runEngineCase(c *eCase) eObs {
 		default:
 			close(gt.release)
 		}
+	}
+	// the call has returned: nothing of it may still be running.  Watch for one more quiet period (events recorded after the
+	// return are rules that the call did not wait for, or started although it had already given up)
+	if !obs.Hang {
+		atReturn := ob.count()
+		last := atReturn
+		for i := 0; i < 20; i++ {
+			time.Sleep(quiet / 2)
+			now := ob.count()
+			if now == last {
+				break
+			}
+			last = now
+		}
+		obs.Late = last - atReturn
 	}
 	obs.Events = ob.snapshot()
 	if obs.Events == nil {
